@@ -492,6 +492,25 @@ func NewOpLib() *OpLib {
 			p.Txs = one("bot", &perptypes.MsgClosePositions{Creator: w.A("bot").Addr.String(), Liquidate: reqs, StopLoss: reqs, TakeProfit: reqs})
 		})
 	}
+	// the same with ONE list only: the take-profit / stop-loss routes go straight to the forced close,
+	// without the settlement the liquidation route performs first
+	for _, v := range []struct{ list, pr string }{{"takeprofit", "8"}, {"takeprofit", "2"}, {"stoploss", "4.4"}, {"stoploss", "5.6"}} {
+		v := v
+		l.Add("perp_bot_"+v.list+"_all_at_"+v.pr, "perp_bot", 1, func(w *World, p *BlockPlan) {
+			p.SetAtom = v.pr
+			reqs := []perptypes.PositionRequest{}
+			for _, m := range w.App.PerpetualKeeper.GetAllMTPs(w.RCtx()) {
+				reqs = append(reqs, perptypes.PositionRequest{Address: m.Address, Id: m.Id})
+			}
+			m := &perptypes.MsgClosePositions{Creator: w.A("bot").Addr.String()}
+			if v.list == "takeprofit" {
+				m.TakeProfit = reqs
+			} else {
+				m.StopLoss = reqs
+			}
+			p.Txs = one("bot", m)
+		})
+	}
 	l.Add("perp_bot_close_all", "perp_bot", 0, func(w *World, p *BlockPlan) {
 		// bot names every stored position in all three lists (healthy or not)
 		reqs := []perptypes.PositionRequest{}
@@ -551,6 +570,20 @@ func NewOpLib() *OpLib {
 	l.Add("llp_bot_stoploss_all", "llp_bot", 0, func(w *World, p *BlockPlan) {
 		p.Txs = one("bot", &llptypes.MsgClosePositions{Creator: w.A("bot").Addr.String(), StopLoss: llpReqs(w)})
 	})
+	// the OWNER closes in the block that first feeds a much lower price (the position is unhealthy when the
+	// owner's message runs; inside the lock hour this must stay refused: only a liquidation overrides a lock)
+	for _, who := range []string{"t1", "t2"} {
+		who := who
+		l.Add("llp_close_full_"+who+"_at_1", "llp_close", 1, func(w *World, p *BlockPlan) {
+			p.SetAtom = "1"
+			ps := w.LLPsOf(who)
+			id, amt := uint64(1), I(1)
+			if len(ps) > 0 {
+				id, amt = ps[len(ps)-1].Id, ps[len(ps)-1].LeveragedLpAmount
+			}
+			p.Txs = one(who, &llptypes.MsgClose{Creator: w.A(who).Addr.String(), Id: id, LpAmount: amt})
+		})
+	}
 	// price move and the bot's message in ONE block: the begin-block sweep of that block ran at the old
 	// price, so it is the MESSAGE that finds the positions closable (several closes inside one message)
 	for _, pr := range []string{"4", "2", "1"} {
@@ -641,6 +674,21 @@ func NewOpLib() *OpLib {
 			p.Txs = one(who, &mctypes.MsgClaimRewards{Sender: w.A(who).Addr.String(), PoolIds: []uint64{1, 2, uint64(sstypes.PoolId)}})
 		})
 	}
+	// unusual shapes of the claim message that validation accepts: a REPEATED pool id, an empty list, an
+	// unknown pool
+	l.Add("mc_claim_lp1_repeated_ids", "mc_claim", 0, func(w *World, p *BlockPlan) {
+		p.Txs = one("lp1", &mctypes.MsgClaimRewards{Sender: w.A("lp1").Addr.String(), PoolIds: []uint64{1, 1, 2, 1, uint64(sstypes.PoolId), 2}})
+	})
+	l.Add("mc_claim_lp1_pool2_twice", "mc_claim", 0, func(w *World, p *BlockPlan) {
+		// pool 2 earns no Eden: only bank-backed rewards are involved
+		p.Txs = one("lp1", &mctypes.MsgClaimRewards{Sender: w.A("lp1").Addr.String(), PoolIds: []uint64{2, 2}})
+	})
+	l.Add("mc_claim_lp1_empty_list", "mc_claim", 0, func(w *World, p *BlockPlan) {
+		p.Txs = one("lp1", &mctypes.MsgClaimRewards{Sender: w.A("lp1").Addr.String(), PoolIds: []uint64{}})
+	})
+	l.Add("mc_claim_lp1_unknown_pool", "mc_claim", 0, func(w *World, p *BlockPlan) {
+		p.Txs = one("lp1", &mctypes.MsgClaimRewards{Sender: w.A("lp1").Addr.String(), PoolIds: []uint64{1, 77}})
+	})
 	l.Add("ext_incentive_lp1", "ext_incentive", 0, func(w *World, p *BlockPlan) {
 		h := w.Height()
 		p.Txs = one("lp1", &mctypes.MsgAddExternalIncentive{Sender: w.A("lp1").Addr.String(), RewardDenom: "uatom", PoolId: 1, FromBlock: h + 2, ToBlock: h + 4, AmountPerBlock: I(1000)})
